@@ -26,7 +26,8 @@ func externMods(f *ssa.Function) (keys []string, allocs bool, known bool) {
 		"unicode/utf8.DecodeRune", "unicode/utf8.DecodeLastRune", "unicode/utf8.DecodeRuneInString", "unicode/utf8.RuneLen",
 		"unicode.Is", "unicode.In", "unicode.IsSpace", "unicode.IsPunct", "unicode/utf8.RuneStart", "unicode/utf8.FullRune":
 		return nil, false, true
-	case "bytes.TrimLeft", "bytes.TrimRight", "bytes.TrimSpace", "strings.TrimSpace", "strings.Trim", "strings.TrimLeft", "strings.TrimRight":
+	case "bytes.TrimLeft", "bytes.TrimRight", "bytes.TrimSpace", "strings.TrimSpace", "strings.Trim", "strings.TrimLeft", "strings.TrimRight",
+		"strings.LastIndexFunc", "strings.IndexFunc", "strings.IndexAny", "strings.LastIndexByte", "strings.LastIndex", "strings.Index":
 		return nil, false, true
 	case "(*strings.Builder).Grow", "(*strings.Builder).Len":
 		return nil, false, true
@@ -41,8 +42,10 @@ func externMods(f *ssa.Function) (keys []string, allocs bool, known bool) {
 		return []string{"S:byte"}, true, true
 	case "strconv.AppendInt":
 		return []string{"E:byte"}, true, true
-	case "(golang.org/x/net/html/atom.Atom).String", "golang.org/x/net/html/atom.Lookup":
+	case "(golang.org/x/net/html/atom.Atom).String", "golang.org/x/net/html/atom.Lookup", "golang.org/x/text/cases.Fold", "bytes.Trim":
 		return nil, false, true
+	case "(golang.org/x/text/cases.Caser).String":
+		return []string{"S:byte"}, true, true
 	}
 	return nil, false, false
 }
@@ -291,7 +294,7 @@ func (x *Exec) builderCall(st *State, c *ssa.Call, method string, args []SV) SV 
 // io.StringWriter, ReferenceMatcher).  Callback contracts (DESIGN 2.3): the implementation does
 // not write library-owned memory, except that Read may write the buffer it is handed.
 func (x *Exec) invoke(st *State, c *ssa.Call, recv SV, args []SV) SV {
-	name := c.Common().Method.FullName()
+	name := normMethodName(c.Common().Method.FullName())
 	it := types.Typ[types.Int]
 	errT := types.Universe.Lookup("error").Type()
 	x.safe(st, "nil", Ne(recv.T, IntC(0)), "method call on a nil interface value", c.Pos())
@@ -314,6 +317,13 @@ func (x *Exec) invoke(st *State, c *ssa.Call, recv SV, args []SV) SV {
 				x.assert(st, fmt.Sprintf("site:call:%s#%d:%s", name, n, cl.Label), env.evalBool(cl.Expr), cl.Text, c.Pos())
 			}
 		}
+	}
+	if strings.HasSuffix(name, ").WriteString") {
+		name = "(io.StringWriter).WriteString"
+	} else if strings.HasSuffix(name, ").Write") {
+		name = "(io.Writer).Write"
+	} else if strings.HasSuffix(name, ").Read") {
+		name = "(io.Reader).Read"
 	}
 	switch name {
 	case "(io.Reader).Read":
@@ -351,6 +361,19 @@ func (x *Exec) invoke(st *State, c *ssa.Call, recv SV, args []SV) SV {
 	return SV{}
 }
 
+// normMethodName: Write/WriteString/Read of any interface type are the io methods.
+func normMethodName(name string) string {
+	switch {
+	case strings.HasSuffix(name, ").WriteString"):
+		return "(io.StringWriter).WriteString"
+	case strings.HasSuffix(name, ").Write"):
+		return "(io.Writer).Write"
+	case strings.HasSuffix(name, ").Read"):
+		return "(io.Reader).Read"
+	}
+	return name
+}
+
 func (x *Exec) invokeOrdinal(c *ssa.Call, name string) int {
 	n := 0
 	for _, b := range c.Parent().Blocks {
@@ -359,7 +382,7 @@ func (x *Exec) invokeOrdinal(c *ssa.Call, name string) int {
 				if cc == c {
 					return n
 				}
-				if cc.Common().IsInvoke() && cc.Common().Method.FullName() == name {
+				if cc.Common().IsInvoke() && normMethodName(cc.Common().Method.FullName()) == name {
 					n++
 				}
 			}
@@ -390,6 +413,9 @@ func (x *Exec) callGhostUpdatesNamed(st *State, key string, recv SV, args []SV, 
 			x.fail("ghost update of undeclared ghost %s", g.Name)
 		}
 		nv := env.eval(g.Expr)
+		if nv.K == KRef && old.K == KInt {
+			nv = intSV(nv.T, types.Typ[types.Int]) // references are integers in ghost state
+		}
 		if nv.K != old.K {
 			x.fail("ghost update of %s changes its kind", g.Name)
 		}
@@ -522,6 +548,9 @@ func (x *Exec) callGhostUpdates(st *State, sig string, fv SV, fid *Term, args []
 			x.fail("ghost update of undeclared ghost %s", g.Name)
 		}
 		nv := env.eval(g.Expr)
+		if nv.K == KRef && old.K == KInt {
+			nv = intSV(nv.T, types.Typ[types.Int]) // references are integers in ghost state
+		}
 		if nv.K != old.K {
 			x.fail("ghost update of %s changes its kind", g.Name)
 		}
